@@ -105,3 +105,24 @@ Theorem cleave_and_stop_sites_sorted : forall r exc given s,
   Sorted lt (find_all_cleave_and_stop_sites r exc given s).
 Proof. exact all_cleave_stop_sorted. Qed.
 Print Assumptions cleave_and_stop_sites_sorted.
+
+(* --- pairing of sites with range-pattern matches (iter_enzymatic_cleave_sites_with_range) --- *)
+From MoPep Require Import Proofs.PairingProofs.
+
+(* obligation over the regenerated table: every rule passes the decidable pairing check
+   (alternatives with different look-behind lengths carry disjoint classes at every aligned offset
+   that could produce two ranges for one site, or invert the order) *)
+Theorem all_rules_pair_ok : forallb (fun nr => pair_ok (snd nr)) site_rules = true.
+Proof. exact all_pairs_ok_proof. Qed.
+Print Assumptions all_rules_pair_ok.
+
+(* for such a rule and EVERY string: no "Inconsistent cleavage sites" error, the sites are those of
+   iter_enzymatic_cleave_sites, and each site is paired with the span of an alternative producing it *)
+Theorem sites_with_range_correct : forall r exc s, pair_ok r = true ->
+  exists l, sites_with_range r (flatten_rule r) exc s = Some l /\
+    map fst l = sites r exc s /\
+    forall j p q, In (j, (p, q)) l ->
+      exists a, In a r /\ match_at (flatten_alt a) s p = true /\
+                (j = p + lbn a + 1)%nat /\ (q = p + length (flatten_alt a))%nat.
+Proof. exact sites_with_range_paired. Qed.
+Print Assumptions sites_with_range_correct.
